@@ -149,3 +149,80 @@ Theorem c06_slot_handed_on : forall st e id o p n id' q c', reachable st ->
   In (OSend id' (p_seq st) (k_fid c')) (snd (proto_step st e)) /\
   p_holder (fst (proto_step st e)) = Some id' /\ p_queue (fst (proto_step st e)) = q.
 Proof. exact slot_handed_on. Qed.
+
+(* ---- the tie to the source text ----------------------------------------------------------------------
+   gen/GenProtoFn.v is emitted on every run from the Python AST of ProtocolHandler._get_command_priority, _ezsp_frame,
+   command, __call__, the COMMANDS_BY_ID comprehension of __init__ (bellows/ezsp/protocol.py) and EZSP.frame_received
+   (harness/pysrc.py: self._seq / self._awaiting are state variables, calls on other objects are effects in order,
+   the three suspension points of command() resume as the parameters acq / sent / waited say).
+   Vocabulary (proofs/ProtoSrc_proofs.v):
+     aw_abs aw        the model's view of the source's _awaiting dict: (cmd_id, rx_schema, future) |-> (cmd_id, future)
+     py_header_tx     the header writer emitted from the source of EZSPv4 / v5 / v8 (gen/GenEzspFn.v), by header kind
+     end_of id s w    the model output that ends call id when send_data / the wait resume as s / w say
+     out_of id r      the same for how the emitted coroutine ended (return value / exception)                         *)
+Require Import BV.gen.GenCmd BV.model.EzspCases BV.gen.GenProtoFn BV.proofs.ProtoSrc_proofs.
+
+(* the literal dict of _get_command_priority gives the priority the C06 table holds for every entry, every command
+   name of every version is in that table with the source's priority, and -- for EVERY string -- it is the property's
+   classes *)
+Theorem c06_source_priority :
+  (forall name p, In (name, p) PRIORITIES -> py_get_command_priority name = p)
+  /\ (forall v cs c, In (v, cs) COMMANDS -> In c cs -> In (c_name c, py_get_command_priority (c_name c)) PRIORITIES)
+  /\ (forall name, py_get_command_priority name = spec_priority name).
+Proof. exact src_priority. Qed.
+
+(* command() from the grant of the send slot on is [start_call]: same sequence counter and pending table at the call
+   of send_data, the counter advanced by one modulo 256, the entry under the OLD number with the command's id and
+   this call's future, the request handed to the gateway is the model's frame (header with the old number), the slot
+   is asked for with the source's priority and released exactly once, last; the coroutine ends as [end_of] says *)
+Theorem c06_source_command : forall schemas kind cs st aw c name cmd args data sent waited,
+  find_by_name name cs = Some cmd -> k_fid c = c_id cmd -> aw_abs aw = p_awaiting st ->
+  frame_tx schemas kind (p_seq st) cmd args = Some data -> waited_ok waited ->
+  let '(seq', aw', effs, r) :=
+    py_command schemas (py_header_tx kind cs) cs (p_seq st) aw name args (k_id c) AcqOk sent waited in
+  let '(st', outs) := start_call st c in
+  seq' = p_seq st' /\ aw_abs aw' = p_awaiting st' /\
+  seq' = (p_seq st + 1) mod 256 /\ dict_get (p_seq st) aw' = Some (c_id cmd, c_rx cmd, k_id c) /\
+  outs = [OSend (k_id c) (p_seq st) (c_id cmd)] /\
+  (exists tl, effs = PAcquire (py_get_command_priority name) :: PSendData data :: tl
+              /\ (tl = [PRelease] \/ tl = [PAwaitFuture (k_id c) EZSP_CMD_TIMEOUT; PRelease])) /\
+  out_of (k_id c) r = Some (end_of (k_id c) sent waited).
+Proof. exact src_command_send. Qed.
+
+(* ... and the model's events for those resumptions end the call through [finish] (that output first, then the
+   release of the slot) *)
+Theorem c06_source_command_ends : forall st id c, call_get id (p_calls st) = Some c ->
+  (k_stage c = PSending -> proto_step st (ESendDone id false) = finish st id (end_of id SentRaised WTimeout)) /\
+  (k_stage c <> PQueued -> proto_step st (ECancel id) = finish st id (end_of id SentCancelled WTimeout)) /\
+  (k_stage c = PWaiting -> k_reply c = RNone -> proto_step st (ETimeout id) = finish st id (end_of id SentOk WTimeout)) /\
+  (forall vs, k_reply c = RValues vs -> complete_with_reply st c = finish st id (end_of id SentOk (WResult vs))) /\
+  (k_reply c = RInvalidCommand -> complete_with_reply st c = finish st id (end_of id SentOk (WException XInvalidCommand))).
+Proof. exact model_end_of. Qed.
+
+(* cancelled while queued for the slot: nothing touched, nothing released (the model's ECancel of a queued call) *)
+Theorem c06_source_command_cancelled_in_queue : forall schemas cs ftx seq aw name args fut sent waited,
+  py_command schemas ftx cs seq aw name args fut AcqCancelled sent waited =
+    (seq, aw, [PAcquire (py_get_command_priority name)], PyRaise XCancelled).
+Proof. exact src_command_cancelled_in_queue. Qed.
+
+(* a request that cannot be built leaves the counter and the pending table alone and gives the slot back *)
+Theorem c06_source_command_build_fails : forall schemas cs ftx seq aw name args fut sent waited e,
+  py_ezsp_frame schemas ftx cs seq name args = Exn e ->
+  py_command schemas ftx cs seq aw name args fut AcqOk sent waited =
+    (seq, aw, [PAcquire (py_get_command_priority name); PRelease], PyRaise e).
+Proof. exact src_command_build_fails. Qed.
+
+(* a fresh handler is the model's initial state *)
+Theorem c06_source_init :
+  fst py_init = p_seq p_init /\ aw_abs (snd py_init) = p_awaiting p_init /\ (forall cs, ids_known cs (snd py_init)).
+Proof. exact src_init. Qed.
+
+(* non-vacuity on the generated v8 table: getValue after 255 earlier commands, answered in time *)
+Example c06_source_example :
+  let '(seq', aw', effs, r) :=
+    py_command SCHEMAS (py_header_tx 8 (commands_of 8)) (commands_of 8) 255 [] "getValue" [XP (VI 3)] 7
+               AcqOk SentOk (WResult [XP (VI 0); XP (VB [1; 0])]) in
+  seq' = 0 /\ aw_abs aw' = [(255, (0xAA, 7))] /\
+  effs = [PAcquire 999%Z; PSendData [255; 0; 1; 0xAA; 0; 3]; PAwaitFuture 7 10; PRelease] /\
+  r = PyValue [XP (VI 0); XP (VB [1; 0])].
+Proof. vm_compute. repeat split. Qed.
